@@ -120,7 +120,7 @@ def gen_scenario(rng, frontend):
         if e['kind'] == 'data' and rng.random() < 0.2:
             e['wide'] = True
     return {'frontend': frontend, 'ints': ints, 'datas': datas, 'events': out, 'shared_param': rng.random() < 0.25, 'shared_validators': rng.random() < 0.5,
-            'reenter': rng.random() < 0.3}
+            'reenter': rng.random() < 0.3, 'coalesce': frontend == 'v2' and rng.random() < 0.35}
 
 
 # ------------------------------------------------------------------ model
@@ -390,13 +390,29 @@ def execute(sc):
                 return
             R.nested.append((nid_, t0_, asyncio.ensure_future(waiter(nid_, c_))))
 
+        shared_waits = {}
+
+        async def wait_latency(it):
+            # validators of one application often wait on ONE shared awaitable (an in-flight key fetch that several validations need):
+            # runs that start while it is pending join it
+            if not (sc.get('coalesce') and it['id'] < 100):
+                await asyncio.sleep(it['lat'] / 1000.0)
+                return
+            key_ = (it['lat'], S.now_ms())         # (runs that start at the same instant and need the same time: one Data, several Interests)
+            fut = shared_waits.get(key_)
+            if fut is None or fut.done():
+                fut = shared_waits[key_] = asyncio.get_running_loop().create_future()
+                asyncio.get_running_loop().call_later(it['lat'] / 1000.0, lambda f=fut: f.done() or f.set_result(None))
+                fut.t0 = S.now_ms()
+            await fut
+
         def make_validator_obj(it):
             if fe == 'v2':
                 async def v(name, sig, ctx):
                     R.validator_log.append((it['id'], 'call', S.now_ms()))
                     nested(it)
                     if it['lat']:
-                        await asyncio.sleep(it['lat'] / 1000.0)
+                        await wait_latency(it)
                     R.validator_log.append((it['id'], 'ret', S.now_ms()))
                     return getattr(types.ValidResult, it['verdict'])
             else:
@@ -407,6 +423,28 @@ def execute(sc):
                         await asyncio.sleep(it['lat'] / 1000.0)
                     R.validator_log.append((it['id'], 'ret', S.now_ms()))
                     return it['verdict']
+            # a validator is anything that, called with those arguments, returns an awaitable: an async function, a plain function or
+            # lambda that forwards to one, an object with an (async or plain) __call__ - the shapes the library's own checkers have
+            shape = (it['id'] + len(sc['events'])) % 4 if it['id'] < 100 else 0
+            if shape == 1:
+                inner1 = v
+                return lambda *a: inner1(*a)
+            if shape == 2:
+                class AsObject:
+                    def __init__(self, f):
+                        self.f = f
+
+                    async def __call__(self, *a):
+                        return await self.f(*a)
+                return AsObject(v)
+            if shape == 3:
+                class PlainCall:
+                    def __init__(self, f):
+                        self.validate = f
+
+                    def __call__(self, *a):
+                        return self.validate(*a)
+                return PlainCall(v)
             return v
 
         async def waiter(iid, coro, await_from=None):
@@ -652,7 +690,7 @@ def judge(ctx, sc, R, S):
         if gk == 'valfail':
             e = gd
             ver = getattr(e, 'result', None)
-            gd = ver.name if fe == 'v2' and ver is not None else it['verdict']
+            gd = getattr(ver, 'name', repr(type(ver).__name__)) if fe == 'v2' and ver is not None else it['verdict']
             if fe == 'v2' and (getattr(e, 'name', None) is None or getattr(e, 'result', None) is None):
                 ctx.report('validation-failure-incomplete', 'ValidationFailure lacks packet or verdict', w)
         order.append((gk, it['id']))
@@ -746,7 +784,7 @@ def template_scenarios(rng, fe):
     def sc(ints, datas, extra):
         evs = [{'t': it['te'], 'kind': 'express', 'i': it['id']} for it in ints] + extra
         evs.sort(key=lambda e: e['t'])
-        return {'frontend': fe, 'ints': ints, 'datas': datas, 'events': evs, 'shared_validators': rng.random() < 0.6}
+        return {'frontend': fe, 'ints': ints, 'datas': datas, 'events': evs, 'shared_validators': rng.random() < 0.6, 'coalesce': fe == 'v2'}
     L = rng.choice([50, 100, 200])
     d = rng.choice([1, 5, L // 2, L - 1])
     out = []
@@ -788,6 +826,12 @@ def template_scenarios(rng, fe):
     # T8: validator verdicts differ between Interests satisfied by one Data
     out.append(('verdicts-differ', sc([I(0, 'ab', L=L, verdict=ok), I(1, 'ab', L=L, verdict=bad, lat=rng.choice([0, 3])), I(2, 'ab', L=L, verdict=ok, lat=5)],
                                       [{'id': 0, 'name': 'ab'}], [{'t': d, 'kind': 'data', 'd': 0}])))
+    # T8b: one Data satisfies two Interests whose validations need the same time (and, in the current front-end, wait on ONE shared
+    # awaitable); the first Interest's lifetime ends while both are being validated - the second one's validation goes on
+    out.append(('shared-validation-outlives-one-interest', sc([I(0, 'ab', L=60, verdict=ok, lat=150), I(1, 'ab', L=1000, verdict=ok, lat=150)],
+                                                              [{'id': 0, 'name': 'ab'}], [{'t': 10, 'kind': 'data', 'd': 0}])))
+    out.append(('shared-validation-one-caller-gives-up', sc([I(0, 'ab', L=1000, verdict=ok, lat=150), I(1, 'ab', L=1000, verdict=ok, lat=150)],
+                                                            [{'id': 0, 'name': 'ab'}], [{'t': 10, 'kind': 'data', 'd': 0}, {'t': 50, 'kind': 'cancel', 'i': 0}])))
     # T9: implicit digest: only the Interest carrying the digest of that very Data is satisfied
     out.append(('implicit-digest', sc([I(0, 'ab', L=L, digest=('of', 0)), I(1, 'ab', L=L, digest='bogus'), I(2, 'ab', L=L, digest=('of', 1))],
                                       [{'id': 0, 'name': 'ab'}, {'id': 1, 'name': 'ab'}], [{'t': d, 'kind': 'data', 'd': 1}, {'t': d + 2, 'kind': 'data', 'd': 0}])))
